@@ -108,7 +108,7 @@ func c03Oracle(sc *Scenario, rec *Rec, s *mc.Sched) []mc.Violation {
 
 	// handler side: setting headers after they were sent fails, before that it succeeds
 	sent := false
-	k := 0
+	k, ns := 0, 0
 	script := cat(rpc.Handler, rpc.Handler2)
 	if len(rpc.Handler2) > 0 {
 		script = nil
@@ -150,12 +150,16 @@ func c03Oracle(sc *Scenario, rec *Rec, s *mc.Sched) []mc.Violation {
 					add("header-refused", op+" before the headers were sent returned "+res)
 				}
 			}
+			if op[0] == 'H' && k < len(rr.SrvHdrRes) && strings.HasSuffix(rr.SrvHdrRes[k], "=nil") {
+				sent = true // a SendHeader that succeeded
+			}
 			k++
-			if op[0] == 'H' {
+		case len(op) > 1 && op[0] == 's' && op[1] >= '0' && op[1] <= '9':
+			// a send that failed (the context had ended) did not send the headers either
+			if ns < len(rr.SrvSendRes) && rr.SrvSendRes[ns] == "nil" {
 				sent = true
 			}
-		case len(op) > 1 && op[0] == 's' && op[1] >= '0' && op[1] <= '9':
-			sent = true
+			ns++
 		case strings.HasPrefix(op, "t:") && rpc.Kind == "unary":
 			k++ // unary SetTrailer results are recorded in the same list
 		}
